@@ -21,6 +21,7 @@ package main
 import (
 	"bytes"
 	"context"
+	crand "crypto/rand"
 	"encoding/json"
 	"fmt"
 	"math/rand"
@@ -32,6 +33,9 @@ import (
 	"sync"
 	"sync/atomic"
 	"time"
+
+	lcrypto "github.com/libp2p/go-libp2p/core/crypto"
+	"github.com/libp2p/go-libp2p/core/peer"
 
 	"github.com/LiskHQ/lisk-engine/pkg/log"
 	"github.com/LiskHQ/lisk-engine/pkg/p2p"
@@ -1103,8 +1107,43 @@ func forcedLost(args []string) int {
 	if sent >= 0 && reg >= 0 {
 		res.Shape["register_first"] = reg < sent
 	}
+	// requests that never leave: the caller's context is already cancelled, or the peer is not reachable.  They end with an
+	// error - and must not leave a pending entry behind ("... or leak a pending entry")
+	if res.Violation == "" && res.Established {
+		p2p.VerifSetHook(nil)
+		before, okb := p.a.VerifTryPending()
+		failed := 0
+		for i := 0; i < 8; i++ {
+			cctx, cancel := context.WithCancel(context.Background())
+			cancel()
+			if resp := p.a.RequestFrom(cctx, p.bID, proc, []byte(`{"n":900,"lat":[0],"dup":[-1]}`)); resp.Error() != nil {
+				failed++
+			}
+		}
+		_, pk, _ := lcryptoKey()
+		if unknown, err := peer.IDFromPublicKey(pk); err == nil {
+			for i := 0; i < 3; i++ {
+				cctx, cancel := context.WithTimeout(context.Background(), 300*time.Millisecond)
+				if resp := p.a.RequestFrom(cctx, unknown, proc, []byte(`{"n":901,"lat":[0],"dup":[-1]}`)); resp.Error() != nil {
+					failed++
+				}
+				cancel()
+			}
+		}
+		time.Sleep(100 * time.Millisecond)
+		after, oka := p.a.VerifTryPending()
+		res.Shape["failed_sends"] = failed
+		if okb && oka && failed > 0 && after > before {
+			res.Violation = "leak:pending-entry-after-failed-send"
+			res.What = fmt.Sprintf("%d requests whose send step failed (context cancelled before the call, unreachable peer) ended with an error and left %d pending entries behind (before: %d)", failed, after, before)
+		}
+	}
 	writeForcedTrace(tracePath, evs, 1, p, map[int]callResult{1: r}, &res)
 	return 0
+}
+
+func lcryptoKey() (lcrypto.PrivKey, lcrypto.PubKey, error) {
+	return lcrypto.GenerateEd25519Key(crand.Reader)
 }
 
 func errSuffix(e string) string {
